@@ -214,60 +214,74 @@ Fixpoint repr_small_quot (fuel : nat) (R S q : Z) : Z * Z :=
   | Datatypes.S f => if S <=? R then repr_small_quot f (R - S) S (q + 1) else (q, R)
   end.
 
-(* dtoa's termination test after a digit: D = digits so far, r the remainder,
-   S one unit of the last digit, mlo/mhi the half gaps to the neighbouring
-   doubles (same scale).  Some D' = stop with digits D' (before the trailing-9
-   carry clean-up); None = generate another digit. *)
-Definition repr_test (ev : bool) (S r mlo mhi D dig : Z) : option Z :=
+(* dtoa's termination test after a digit: r the remainder, S one unit of the
+   last digit, mlo/mhi the half gaps to the neighbouring doubles (same scale).
+   Some false = stop; Some true = stop and round the last digit up (with the
+   trailing-9 carry); None = generate another digit. *)
+Definition repr_test (ev : bool) (S r mlo mhi dig : Z) : option bool :=
   let j := r ?= mlo in
   let j1 := (r + mhi) ?= S in
   match j1, ev with
-  | Eq, true => if dig =? 9 then Some (D + 1) else
-                match j with Gt => Some (D + 1) | _ => Some D end
+  | Eq, true => if dig =? 9 then Some true else
+                match j with Gt => Some true | _ => Some false end
   | _, _ =>
     if (match j with Lt => true | Eq => ev | Gt => false end) then
-      if r =? 0 then Some D else
+      if r =? 0 then Some false else
       match j1 with
       | Gt => match (2 * r ?= S) with
-              | Gt => Some (D + 1)
-              | Eq => if Z.odd dig then Some (D + 1) else Some D
-              | Lt => Some D
+              | Gt => Some true
+              | Eq => Some (Z.odd dig)
+              | Lt => Some false
               end
-      | _ => Some D
+      | _ => Some false
       end
-    else match j1 with Gt => Some (D + 1) | _ => None end
+    else match j1 with Gt => Some true | _ => None end
   end.
 
-(* R/S = fraction not yet printed, in units of the last printed digit *)
-Fixpoint repr_loop (fuel : nat) (ev : bool) (S R mlo mhi D n : Z) : Z * Z :=
+(* R/S = fraction not yet printed, in units of the last printed digit;
+   acc = digits printed so far, last one first *)
+Fixpoint repr_loop (fuel : nat) (ev : bool) (S R mlo mhi : Z) (acc : list Z) : list Z * bool :=
   match fuel with
-  | O => (D, n)
+  | O => (acc, false)
   | Datatypes.S f =>
       let mlo := 10 * mlo in
       let mhi := 10 * mhi in
       let (dig, r) := repr_small_quot 10 (10 * R) S 0 in
-      let D := 10 * D + dig in
-      match repr_test ev S r mlo mhi D dig with
-      | Some D' => (D', n + 1)
-      | None => repr_loop f ev S r mlo mhi D (n + 1)
+      match repr_test ev S r mlo mhi dig with
+      | Some up => (dig :: acc, up)
+      | None => repr_loop f ev S r mlo mhi (dig :: acc)
       end
   end.
 
-(* digits of m*2^e (m > 0) with 10^(dp-1) <= m*2^e < 10^dp: (D, n), D nominally
-   n digits long (10^n after a carry) *)
-Definition repr_digits (m e dp : Z) : Z * Z :=
+(* digits of m*2^e (m > 0) with 10^(dp-1) <= m*2^e < 10^dp, last one first,
+   and whether the last one is to be rounded up *)
+Definition repr_digits (m e dp : Z) : list Z * bool :=
   let pe := Z.max e 0 in let ne := Z.max (- e) 0 in
   let t := 10 ^ (Z.max (- dp) 0) in
   let S := Z.shiftl (4 * 10 ^ (Z.max dp 0)) ne in
   let R := Z.shiftl (4 * m) pe * t in
   let mhi := Z.shiftl 2 pe * t in
   let mlo := if (m =? 4503599627370496) && (-1074 <? e) then Z.shiftl 1 pe * t else mhi in
-  repr_loop 40 (Z.even m) S R mlo mhi 0 0.
+  repr_loop 40 (Z.even m) S R mlo mhi [].
 
-Fixpoint repr_strip_zeros (fuel : nat) (D : Z) : Z :=
-  match fuel with
-  | O => D
-  | S fuel' => if (D mod 10 =? 0) && (0 <? D) then repr_strip_zeros fuel' (D / 10) else D
+(* dtoa's roundoff: drop trailing nines, add one to the digit before them;
+   all nines: "1" and the decimal point moves *)
+Fixpoint repr_incr (l : list Z) : list Z * bool :=
+  match l with
+  | [] => ([1], true)
+  | d :: r => if d =? 9 then repr_incr r else (d + 1 :: r, false)
+  end.
+
+Fixpoint repr_drop_zeros (l : list Z) : list Z :=
+  match l with
+  | d :: (_ :: _) as r => if d =? 0 then repr_drop_zeros r else l
+  | _ => l
+  end.
+
+Fixpoint repr_digit_string (l : list Z) (acc : String.string) : String.string :=   (* l last digit first *)
+  match l with
+  | [] => acc
+  | d :: r => repr_digit_string r (String.String (digit_char d) acc)
   end.
 
 Fixpoint repr_zeros (n : nat) : String.string :=
@@ -310,11 +324,10 @@ Definition b64_repr (x : float) : String.string :=
   | S754_finite s pm e =>
       let m := Z.pos pm in
       let dp := repr_dec_exp m e + 1 in
-      let (D, n) := repr_digits m e dp in
-      (* D nominally has n digits (or is 10^n after a carry) *)
-      let ds0 := Z_to_string D in
-      let decpt := dp - n + Z.of_nat (String.length ds0) in
-      let ds := Z_to_string (repr_strip_zeros 40 D) in
+      let (l, up) := repr_digits m e dp in
+      let (l, carry) := if up then repr_incr l else (l, false) in
+      let decpt := if carry then dp + 1 else dp in
+      let ds := repr_digit_string (repr_drop_zeros l) String.EmptyString in
       let body := repr_layout ds decpt in
       if s then String.String "-"%char body else body
   end.
